@@ -580,13 +580,13 @@ MANIFEST_INFO = {
     'C03': _mi('exploration', '5/C03', 'Hash histories with resize-during-resize, duplicate keys, visitors, swap against a membership model keyed by element address; closure over reachable table states in small scopes.', _N),
     'C04': _mi('exploration', '5/C04', 'foreach / foreach_const / clear at every stage of grow and shrink rehashes checked with per-address visit counters; closure over table states x entry points.', _N),
     'C05': _mi('exploration', '5/C05', 'Per-operation event oracle (clear callback, frees, mallocs observed through link-time interposition) against an ownership model over pools of shared/weak/unique pointers; all sequences to depth 4-6, random histories beyond.', _N),
-    'C06': _mi('exploration', '5/C06', 'The harness owns the schedule: memory.c compiled against shadow atomics, every schedule of every two-thread scenario of the catalogue enumerated (visited-state pruning), 3/4-thread catalogues up to a cap, random schedules, plus real threads under TSan.', 'interleaves at atomics, allocator calls, callbacks, script touches; seq_cst atomics; liveness = termination of bounded scenarios; TSan runs are nondeterministic',
+    'C06': _mi('exploration', '5/C06', 'The harness owns the schedule: memory.c compiled against shadow atomics, every schedule of every two-thread scenario of the catalogue (every pair of scripts of <= 2 operations) enumerated (visited-state pruning), 3/4-thread catalogues up to a cap, random schedules, plus real threads under TSan.', 'interleaves at atomics, allocator calls, callbacks, script touches; seq_cst atomics; liveness = termination of bounded scenarios; TSan runs are nondeterministic',
                technique='schedule enumeration (stateless DFS with visited-state pruning) + randomised schedules over generated scenarios, C05 oracle per schedule; TSan real-thread runs'),
     'C07': _mi('exploration', '5/C07', 'Push/pop histories against a reference multiset plus a completeness/heap-order walk over the public links; closure over all heaps <= 9-15 elements, long random interleavings.', _N),
-    'C08': _mi('exploration', '5/C08', 'Map histories with pointer-identity of stored key/value cells and allocation accounting against a reference map; all sequences to depth 4-5, closure over the underlying tree, random histories.', _N),
+    'C08': _mi('exploration', '5/C08', 'Map histories with pointer-identity of stored key/value cells (iterators from find and from insert) and release-at-clear accounting against a reference map; all sequences to depth 4-5, closure over the underlying tree, random histories.', _N),
     'C09': _mi('exploration', '5/C09', 'Vector histories with boundary/overflowing sizes; block size known from the interposer compared with (cap+1)*elem in 128-bit arithmetic; ctor/dtor counters; abort predicate. Every op x full symbolic table x element sizes enumerated.', _N + '; requests above 1 MiB are refused by the interposer'),
     'C10': _mi('exploration', '5/C10', 'Narrow and wide string edit histories against std::basic_string with symbolic positions/counts; NUL termination; abort predicate; libc differential for find/compare. Every single op and ordered pair from every base string <= 3 chars enumerated.', _N),
-    'C11': _mi('exploration', '5/C11', 'All arrays up to length 7/9 over a 4-value alphabet x entry point x element size x selector, every QUICK_R pivot script, adversarial large inputs; oracle sorted + byte-multiset equal + callback bounds + search/find/reverse relations.', _N),
+    'C11': _mi('exploration', '5/C11', 'All arrays up to length 7/9 over a 4-value alphabet x entry point x element size x selector, every QUICK_R pivot script, adversarial large inputs, and virtual arrays of 2^30..2^33 elements for search/find/reverse (elements reachable only through the callbacks); oracle sorted + byte-multiset equal + callback bounds + search/find/reverse relations.', _N),
     'C12': _mi('exploration', '5/C12', 'Histories over 1-3 dlists against reference sequences audited in both directions after every op; closure over list states and all short sequences.', _N),
     'C13': _mi('exploration', '5/C13', 'Histories over 1-3 slists against reference sequences with size/front/back/traversal audited after every op; push_back right after every structural op by construction.', _N),
     'C14': _mi('exploration', '5/C14', 'Histories over array objects/buffers with boundary bounds against a view/buffer model; addresses checked against live blocks; allocator events per op for lifetime.', _N),
@@ -598,5 +598,5 @@ MANIFEST_INFO = {
     'C18': _mi('exploration', '5/C18', 'Generated client programs (every header alone, ordered pairs, all together; 1 and 2 TUs; .a and .so; include-only and address-of-every-function) built with the project flags against the Makefile-built library.', 'gcc + project Makefile; only compiler/linker/program exit status and exported symbols decide',
                technique='generated client programs (configuration enumeration + seeded sampling) with compile/link/run oracle', engine='vcheck'),
     'C19': _mi('exploration', '5/C19', 'Unique-key hash histories with logging hash functions: load after every resize, per-operation call log must be lookups + relocations from <= 3 buckets, single lookup once finished and after at most B keyed ops.', _N),
-    'C20': _mi('exploration', '5/C20', 'Exhaustive table (kind x state x entry point x argument position x copy method) of calls on bitwise copies must abort; original keeps answering; proper moves never abort.', _N),
+    'C20': _mi('exploration', '5/C20', 'Exhaustive table (kind x state x entry point x argument position x copy method) of calls on bitwise copies must abort; original keeps answering; objects moved with the provided functions are used in place and never abort, also throughout generated C05/C14 histories.', _N),
 }
